@@ -347,11 +347,12 @@ PROPS = {
                      "ordering is checked per (source host, sender thread, tag): messages of different threads of one host are not ordered against each other by the sender"],
     ),
     "C18": dict(
-        variants={"native": ["galois_shmem", "galois_dist_async", "galois_gluon", "distbench"]},
+        variants={"native": ["galois_shmem", "galois_dist_async", "galois_gluon", "distbench"], "sched": ["galois_shmem"]},
         extra_harnesses=["dharness"],
-        units=[dict(type="hyp", harness="py:c18", quick=120, thorough=1800, workers=6)],
-        engine="hypothesis over MPI subprocesses",
-        technique="property-based testing: Hypothesis-generated graphs, host counts, partition policies, write/read locations, reductions (min, max, add, set), bitset on/off, forced wire encodings and multi-round write plans over eligible proxies; the distributed harness applies the plan with the library's own sync structures under mpirun and dumps every proxy before/after each sync; reference = reduction over the master's previous value and the written eligible contributions",
+        units=[dict(type="hyp", harness="py:c18", quick=300, thorough=4500, workers=6),
+               dict(type="rc", harness="c15s", quick=9000, thorough=135000)],
+        engine="hypothesis over MPI subprocesses; gsched for the update bitset",
+        technique="property-based testing: (c15s unit) the update bitset's concurrent set()/reset() -- the dirty marks every sync depends on -- under the gsched schedule explorer; (py:c18) Hypothesis-generated graphs, host counts, partition policies, write/read locations, reductions (min, max, add, set), bitset on/off, forced wire encodings and multi-round write plans over eligible proxies; the distributed harness applies the plan with the library's own sync structures under mpirun and dumps every proxy before/after each sync; reference = reduction over the master's previous value and the written eligible contributions",
         rule=("cases = (graph <=60 nodes, hosts 1..4, 9 policies, write x read location (9 pairs), reduction, update bitset on/off, "
               "-metadata auto|bitset|offsets|gids|none, 1-2 threads, 1..4 rounds of <=40 write intents resolved to eligible proxies); "
               "non-trivial = >=2 hosts AND a mirror was written AND some round had both updated and non-updated nodes; distinct = sha1"),
@@ -383,7 +384,8 @@ PROPS = {
                              "k-core-cpu", "pagerank-pull-cpu", "pagerank-push-cpu", "maximal-independentset-cpu", "preflowpush-cpu",
                              "bfs-push-dist", "bfs-pull-dist", "sssp-push-dist", "sssp-pull-dist", "connected-components-push-dist",
                              "connected-components-pull-dist", "k-core-push-dist", "k-core-pull-dist"]},
-        units=[dict(type="hyp", harness="py:c20", quick=240, thorough=3600, workers=8, env={"VERIF_SHRINK_EVALS": "40"})],
+        units=[dict(type="hyp", harness="py:c20", quick=1200, thorough=18000, workers=8, confirm_runs=12, env={"VERIF_SHRINK_EVALS": "40", "C20_APPS": "cpu"}),
+               dict(type="hyp", harness="py:c20", quick=240, thorough=3600, workers=6, env={"VERIF_SHRINK_EVALS": "40", "C20_APPS": "dist"})],
         engine="hypothesis over subprocesses (CPU apps) and MPI (distributed apps)",
         technique="property-based differential testing: Hypothesis-generated graphs (disconnected, self loops, parallel edges, hub skew, paths, up to 400 nodes), algorithm variants, thread counts 1..16, hosts 1..4 x partition policies; applications run as subprocesses / under mpirun; answers compared with references (BFS, Dijkstra, union-find, Kruskal, brute-force triangles, peeling, max-flow, power iteration) implemented in the driver",
         rule=("cases = (application, graph shape/size/edges, algorithm variant, threads in {1,2,4,8,16}, source/report node, parameter, hosts, "
